@@ -1,7 +1,9 @@
 import PsV.Model.Alloc
 import PsV.Driver.Common
 /-! Driver for C19: evaluates `estimate`, `readEvents`, `convolveEvents`, `peak` on the file description the
-    harness prints.  Line: `C objsize ndim n cdim doconv nauxK naux {order nknots naxes}*ndim {keylen vallen}*naux`. -/
+    harness prints.  Line: `C objsize ndim n cdim doconv nauxK naux {order nknots naxes}*ndim {keylen vallen storedlen}*naux`.
+    A file whose shape the reader's (generated) validation refuses answers `rejected`: the call sites are then not
+    executed to the end and the event model does not apply. -/
 namespace PsV.Driver.C19
 open PsV.C19 PsV.Driver
 
@@ -12,7 +14,7 @@ def parseDims : Nat → List Nat → Option (List Dim × List Nat)
 
 def parseAux : Nat → List Nat → Option (List AuxEntry × List Nat)
   | 0, rest => some ([], rest)
-  | k+1, a :: b :: rest => (parseAux k rest).map fun (as, r) => (⟨a, b⟩ :: as, r)
+  | k+1, a :: b :: c :: rest => (parseAux k rest).map fun (as, r) => (⟨a, b, c⟩ :: as, r)
   | _, _ => none
 
 def showEvents (es : List Event) : String :=
@@ -28,6 +30,7 @@ def handle (ws : List String) : String :=
         match parseAux naux nums with
         | some (aux, []) =>
           let p : Params := { objsize, dims, aux, nauxKnotsHdu := nauxK, n, cdim }
+          if !loadable p then "rejected" else
           let r := readEvents p
           let c := if doconv = 1 then convolveEvents p else []
           let all := r ++ c
